@@ -321,7 +321,8 @@ impl<'a> VerifDriver for Sim<'a> {
     if self.trace.len() > TRACE_CAP { self.stats.trace_cap_hit += 1; self.unplug_keyboard_now(); }
     if !(self.kbd_notify || self.tab_notify) {
       let next_arrival = self.next_event_time();
-      let deadline = to_us.map(|d| t_in.saturating_add(d));
+      // a timeout of more than ~11 days of simulated time is an unarmed wait for scheduling purposes
+      let deadline = to_us.filter(|d| *d < 1_000_000_000_000).map(|d| t_in.saturating_add(d));
       let horizon = match (next_arrival, deadline) { (Some(a), Some(d)) => Some(a.min(d)), (Some(a), None) => Some(a), (None, Some(d)) => Some(d), (None, None) => None };
       // a signal interrupts the wait at an arbitrary instant
       if self.interrupts < self.cfg.max_interrupts && self.tape.fault(self.cfg.p_eintr) {
